@@ -119,8 +119,67 @@ func bexprTag(tag string) string {
 	return ""
 }
 
+// c08SameNameA / c08SameNameB return values of two DISTINCT struct types that
+// print the same (function-local types with the same name): anything keyed by
+// reflect.Type.String() confuses them. In the second one the position of the
+// visible field of the first holds a hidden field.
+func c08SameNameA(x int) interface{} {
+	type rec struct {
+		X    int
+		Note string
+	}
+	return rec{X: x, Note: "n"}
+}
+
+func c08SameNameB(x int, secret int) interface{} {
+	type rec struct {
+		Secret int `bexpr:"-"`
+		Note   string
+		X      int
+	}
+	return rec{Secret: secret, Note: "n", X: x}
+}
+
+// c08TypeConfusion: a history in one process - evaluate on type A first, then
+// on pairs of type B that differ only in the hidden field.
+func c08TypeConfusion(c *mon.Ctx, r *rand.Rand) {
+	for _, expr := range []string{`X == 1`, `X != 1`, `X == 7 or Note == zz`, `any l as e { e.X == 1 }`} {
+		ev, err, pan, _ := createEval(expr)
+		if pan != "" || err != nil {
+			continue
+		}
+		wrap := func(v interface{}) interface{} {
+			if strings.HasPrefix(expr, "any") {
+				return map[string]interface{}{"l": []interface{}{v}}
+			}
+			return v
+		}
+		evaluate(ev, wrap(c08SameNameA(1)))
+		o1 := evaluate(ev, wrap(c08SameNameB(1, 1)))
+		o2 := evaluate(ev, wrap(c08SameNameB(1, 7)))
+		c.Evals(3)
+		if o1.Class() != o2.Class() {
+			c.Violation("C08 evaluate-differs same-named-types "+o1.Class()+"-vs-"+o2.Class(), "two data that differ only in a hidden field gave different outcomes (after evaluating a different struct type that prints the same)",
+				map[string]any{"expression": expr, "outcome1": o1.String(), "outcome2": o2.String()})
+		}
+		f, _ := bexpr.CreateFilter(expr)
+		if f != nil && !strings.HasPrefix(expr, "any") {
+			execute(f, []interface{}{c08SameNameA(1)})
+			x1 := execute(f, []interface{}{c08SameNameB(1, 1), c08SameNameB(2, 1)})
+			x2 := execute(f, []interface{}{c08SameNameB(1, 7), c08SameNameB(2, 7)})
+			if lenOf(x1.out) != lenOf(x2.out) || (x1.err == nil) != (x2.err == nil) {
+				c.Violation("C08 filter-selection-differs same-named-types", "Filter.Execute kept different elements on data that differ only in a hidden field", map[string]any{"expression": expr, "kept1": lenOf(x1.out), "kept2": lenOf(x2.out)})
+			}
+		}
+		c.Count("same_named_type_histories")
+	}
+}
+
 func c08Run(c *mon.Ctx, idx int) {
 	r := c.RNG(idx)
+	if idx%200 == 0 {
+		c08TypeConfusion(c, r)
+	}
 	doc := univ.GenObj(r, 3, true)
 	seed := r.Int63()
 	mode := 2 + idx%3
@@ -265,7 +324,7 @@ func init() {
 		NumCases:    func(tier string) int { return tierN(tier, 6000, 300000) },
 		Run:         c08Run,
 		Required: func(tier string) []string {
-			return []string{"pairs_differing_in_hidden_content", "aimed:hidden", "aimed:unexported", "aimed:renamed-by-go-name", "aimed:enclosing-struct", "filter_pairs", "filter_pairs_with_selection", "outcome:T", "outcome:F", "outcome:E"}
+			return []string{"pairs_differing_in_hidden_content", "same_named_type_histories", "aimed:hidden", "aimed:unexported", "aimed:renamed-by-go-name", "aimed:enclosing-struct", "filter_pairs", "filter_pairs_with_selection", "outcome:T", "outcome:F", "outcome:E"}
 		},
 	})
 }
